@@ -289,6 +289,54 @@ def acceptSeq (v : Variant) (b : Backend) (d : Seq) (s : Solver) (cfgNoise : Boo
   | .sv => svAccept v d
   | .mps => mpsAccept v d s cfgNoise
 
+/-! ## C04 — the Hamiltonian in use over the whole run -/
+
+/-- How `MPSBackendImpl.timestep_complete` rebuilds the MPO when the interaction matrix changes
+(the SLM mask ends inside the sequence): the current tree passes `hamiltonian_type`; the seeded
+variant relies on a default `hamiltonian_type = Rydberg` of `make_H`. -/
+inductive Rebuild | passesType | defaultRydberg
+  deriving DecidableEq, Repr
+
+/-- Kind of the MPO that a rebuild produces, given the kind `k` built by `init()`. -/
+def rebuiltKind (rb : Rebuild) (dim : Nat) (k : HamKind) : HamKind :=
+  match rb with
+  | .passesType => k
+  | .defaultRydberg => (hamKind .rydberg dim).getD k
+
+/-- Hamiltonian in use during each time step. `changes[i]` = the interaction matrix seen by
+`timestep_complete` after step `i` differs from the current one (then `make_H` is called again and
+yields `k'`); `cur` = the Hamiltonian in use in the first step of the list. -/
+def stepKinds (k' : HamKind) : List Bool → HamKind → List HamKind
+  | [], cur => [cur]
+  | c :: cs, cur => cur :: stepKinds k' cs (if c then k' else cur)
+
+/-- Outcome of a run with the Hamiltonian kind of every time step. -/
+inductive RunOutcome | emulate (ks : List HamKind) | raise (e : Err)
+  deriving DecidableEq, Repr
+
+/-- `<Backend>._run_from_sequence_data` on a sequence of `changes.length + 1` time steps.
+emu-sv builds a fresh `RydbergHamiltonian`/`RydbergLindbladian` for every step; emu-mps builds
+the MPO once in `init()` and again whenever the interaction matrix changes. -/
+def acceptRun (rb : Rebuild) (v : Variant) (b : Backend) (d : Seq) (s : Solver) (cfgNoise : Bool)
+    (changes : List Bool) : RunOutcome :=
+  match acceptSeq v b d s cfgNoise with
+  | .raise e => .raise e
+  | .emulate k =>
+    match b with
+    | .sv => .emulate (List.replicate (changes.length + 1) k)
+    | .mps => .emulate (stepKinds (rebuiltKind rb d.dim k) changes k)
+
+/-- Remove consecutive duplicates (what the harness compares: the sequence of distinct
+Hamiltonians in use). -/
+def collapse : List HamKind → List HamKind
+  | [] => []
+  | [a] => [a]
+  | a :: b :: r => if a = b then collapse (b :: r) else a :: collapse (b :: r)
+
+def collapseRun : RunOutcome → RunOutcome
+  | .emulate ks => .emulate (collapse ks)
+  | .raise e => .raise e
+
 /-! ## C04 — the whole pipeline `run()` -/
 
 /-- `PulserData.__init__` (interaction type, then the Lindblad operators of the noise model *in
@@ -315,9 +363,9 @@ def acceptV (v : Variant) (b : Backend) (it : IntType) (dim : Nat) (kinds : List
 
 /-- `run()` with the `prefer_device_noise_model` switch: `PulserData.__init__` takes the device's
 default noise model (`devKinds`) when it is set, `config.noise_model` (`cfgKinds`) otherwise; the
-DMRG constructor always looks at `config.noise_model`. `fixed = false` is the current tree;
-`fixed = true` is the proposed repair (finding D20): `run()` refuses solver DMRG when the noise
-model in effect is not empty, right after `PulserData` is built. -/
+DMRG constructor always looks at `config.noise_model`. `fixed = true` is the current tree (D22,
+/repo de798eb): `run()` refuses solver DMRG when the noise model in effect is not empty, right
+after `PulserData` is built; `fixed = false` is the tree before that fix. -/
 def acceptDevEff (fixed : Bool) (b : Backend) (it : IntType) (dim : Nat)
     (eff : List NoiseKind) (cfgNoise : Bool) (s : Solver) : Outcome :=
   match detectHam it with
@@ -332,6 +380,20 @@ def acceptDevEff (fixed : Bool) (b : Backend) (it : IntType) (dim : Nat)
 def acceptDev (fixed : Bool) (b : Backend) (it : IntType) (dim : Nat) (prefer : Bool)
     (cfgKinds devKinds : List NoiseKind) (s : Solver) : Outcome :=
   acceptDevEff fixed b it dim (if prefer then devKinds else cfgKinds) (!cfgKinds.isEmpty) s
+
+/-- `accept` with the Hamiltonian kind of every time step: `PulserData.__init__`, then the back-end
+run over `changes.length + 1` steps (`changes` as in `acceptRun`). -/
+def acceptSteps (rb : Rebuild) (b : Backend) (it : IntType) (dim : Nat) (kinds : List NoiseKind)
+    (s : Solver) (changes : List Bool) : RunOutcome :=
+  match detectHam it with
+  | .err e => .raise e
+  | .ok ham =>
+    match allLindblad dim kinds with
+    | .err e => .raise e
+    | .ok n =>
+      acceptRun rb .repaired b
+        { ham := ham, dim := dim, opDims := List.replicate n dim, nAtoms := 2, nGood := 2 }
+        s (!kinds.isEmpty) changes
 
 def accept : Backend → IntType → Nat → List NoiseKind → Solver → Outcome := acceptV .repaired
 
@@ -350,8 +412,8 @@ def pulserBasis (bases : List ChanBasis) (leak : Bool) : Option (IntType × Nat)
 /-- A Pulser sequence through `run()`: `PulserData.__init__`, then `get_sequences`
 (`_extract_omega_delta_phi` rejects every basis set but `{ground-rydberg}` and `{XY}`), then the
 back-end. `none` = Pulser cannot build a sequence addressing this set of bases. `fixed` as in
-`acceptDev` (proposed repair of finding D20: `run()` refuses DMRG + a non-empty noise model right
-after `PulserData` is built; it only changes *which* exception such a run gets). -/
+`acceptDev` (D22 fix: `run()` refuses DMRG + a non-empty noise model right after `PulserData` is
+built; it only changes *which* exception such a run gets). -/
 def acceptSequence (v : Variant) (fixed : Bool) (b : Backend) (bases : List ChanBasis) (leak : Bool)
     (kinds : List NoiseKind) (s : Solver) : Option Outcome :=
   match pulserBasis bases leak with
